@@ -21,6 +21,17 @@
 #include <atomic>
 #include <cstddef>
 
+// Verification hook (compiled in only with -DCPP_UTILITY_VERIF): lets an external
+// scheduler place a scheduling point at accesses to shared non-atomic fields.
+#ifdef CPP_UTILITY_VERIF
+#include <type_traits>
+extern "C" void cpp_utility_verif_point(const char *site);
+#define CPP_UTILITY_VERIF_POINT(site) \
+  (std::is_constant_evaluated() ? static_cast<void>(0) : ::cpp_utility_verif_point(site))
+#else
+#define CPP_UTILITY_VERIF_POINT(site) /* do nothing */
+#endif
+
 namespace dbgroup::thread
 {
 /*##############################################################################
